@@ -64,3 +64,46 @@ Lemma gen_v2_limited : forall blk ids limit,
   | _ => lim_loop blk limit [] ids None
   end.
 Proof. intros. unfold limited_encode, g_v2_limited_encode. destruct ids; reflexivity. Qed.
+
+(* ---------------- polling observer: sampling a head ---------------- *)
+(* one check result of the sampling run: staged exactly when the eligibility test succeeded, said eligible, and the
+   detail could be read - the filter of the model's [stage] *)
+Lemma gen_v2_stage_filter : forall r se,
+  (negb (r_eligerr r) && r_elig r && negb (r_deterr r)) =
+  match g_v2_process_head_result (r_eligerr r) (r_elig r) (r_deterr r) se with
+  | ([1], Fall) => true
+  | _ => false
+  end.
+Proof. intros r se. unfold g_v2_process_head_result. destruct (r_eligerr r), (r_elig r), (r_deterr r), se; reflexivity. Qed.
+
+Lemma gen_v2_stage : forall rs se,
+  stage rs = map (fun r => snd (r_key r))
+                 (filter (fun r => match g_v2_process_head_result (r_eligerr r) (r_elig r) (r_deterr r) se with
+                                   | ([1], Fall) => true
+                                   | _ => false
+                                   end) rs).
+Proof.
+  intros rs se. unfold stage. f_equal. induction rs as [|r rs IH]; cbn [filter]; [reflexivity|].
+  rewrite <- (gen_v2_stage_filter r se), IH. reflexivity.
+Qed.
+
+(* the whole run: the stager is advanced (7) only when the registry answered, some keys were sampled and the runner
+   returned - otherwise the previous staging stays (the model's stager_step on None) *)
+Lemma gen_v2_process_head : forall a b c,
+  In 7 (fst (g_v2_process_head a b c)) <-> (a = false /\ b = false /\ c = false).
+Proof.
+  intros a b c. unfold g_v2_process_head. destruct a, b, c; cbn; split; intros H;
+    try (repeat split; reflexivity); try (destruct H as [H1 [H2 H3]]; discriminate);
+    try (repeat (destruct H as [H|H]; try discriminate)); try contradiction; auto 10.
+Qed.
+
+(* advancing copies the prepared block and identifiers and clears the preparation; preparing appends *)
+Lemma gen_v2_stager :
+  g_v2_stager_advance = ([1; 2; 3; 4], Fall) /\
+  (forall f, last (fst (g_v2_stager_prepare_id f)) 0 = 2).
+Proof. split; [reflexivity|]. intros f. destruct f; reflexivity. Qed.
+
+(* sampling: nothing when there are no keys or the ratio gives none; otherwise the first [size] shuffled keys *)
+Lemma gen_v2_shuffle_slice : forall n size,
+  g_v2_shuffle_slice n size = if (n =? 0) || (size <=? 0) then ([1], RetO 0) else ([1], RetO 1).
+Proof. intros. reflexivity. Qed.
